@@ -359,6 +359,7 @@ type rawBackend struct {
 	addr  string
 	mu    sync.Mutex
 	seen  []seenReq
+	conns map[net.Conn]bool
 	reply string
 }
 
@@ -369,7 +370,7 @@ func newBackend() *rawBackend {
 	if err != nil {
 		panic(err)
 	}
-	b := &rawBackend{ln: ln, addr: ln.Addr().String(), reply: chatReply}
+	b := &rawBackend{ln: ln, addr: ln.Addr().String(), reply: chatReply, conns: map[net.Conn]bool{}}
 	go func() {
 		for {
 			conn, err := ln.Accept()
@@ -382,7 +383,15 @@ func newBackend() *rawBackend {
 	return b
 }
 
-func (b *rawBackend) refuse() { b.ln.Close() }
+// refuse: stop listening and drop every open connection, so the next dial is refused
+func (b *rawBackend) refuse() {
+	b.ln.Close()
+	b.mu.Lock()
+	for c := range b.conns {
+		c.Close()
+	}
+	b.mu.Unlock()
+}
 
 func (b *rawBackend) take() []seenReq {
 	b.mu.Lock()
@@ -393,7 +402,15 @@ func (b *rawBackend) take() []seenReq {
 }
 
 func (b *rawBackend) handle(conn net.Conn) {
-	defer conn.Close()
+	b.mu.Lock()
+	b.conns[conn] = true
+	b.mu.Unlock()
+	defer func() {
+		conn.Close()
+		b.mu.Lock()
+		delete(b.conns, conn)
+		b.mu.Unlock()
+	}()
 	br := bufio.NewReader(conn)
 	for {
 		conn.SetReadDeadline(time.Now().Add(5 * time.Second))
@@ -501,7 +518,10 @@ func startStack(engine string, eps []epSpec) (*stk, error) {
 		cfg.Server.RateLimits.BurstSize = 0
 		cfg.Proxy.Engine = engine
 		cfg.Proxy.LoadBalancer = "priority"
-		cfg.Discovery.ModelDiscovery.Enabled = false
+		cfg.Discovery.ModelDiscovery.Enabled = true
+		cfg.Discovery.ModelDiscovery.RetryAttempts = 1
+		cfg.Discovery.ModelDiscovery.RetryBackoff = 10 * time.Millisecond
+		cfg.Discovery.ModelDiscovery.Timeout = 2 * time.Second
 		cfg.Discovery.Static.Endpoints = nil
 		for _, e := range eps {
 			pr := e.prio
@@ -543,6 +563,17 @@ func startStack(engine string, eps []epSpec) (*stk, error) {
 			time.Sleep(15 * time.Millisecond)
 		}
 		if ok {
+			// wait until model discovery has registered m1 (model-aware routing rejects unknown models)
+			warm := "POST /olla/proxy/v1/chat/completions HTTP/1.1\r\nHost: warmup\r\nContent-Type: application/json\r\nContent-Length: 14\r\n\r\n{\"model\":\"m1\"}"
+			for time.Now().Before(deadline) {
+				if st, err := rawDo(s.addr, warm); err == nil && strings.HasPrefix(st, "200") {
+					break
+				}
+				time.Sleep(20 * time.Millisecond)
+			}
+			for _, e := range eps {
+				e.b.take()
+			}
 			return s, nil
 		}
 		s.stop()
@@ -569,13 +600,13 @@ func rawDo(addr string, req string) (string, error) {
 	if _, err := io.WriteString(conn, req); err != nil {
 		return "", err
 	}
-	br := bufio.NewReader(conn)
-	st, err := br.ReadString('\n')
+	resp, err := http.ReadResponse(bufio.NewReader(conn), nil)
 	if err != nil {
 		return "", err
 	}
-	io.Copy(io.Discard, br)
-	return strings.TrimSpace(st), nil
+	io.Copy(io.Discard, resp.Body)
+	resp.Body.Close()
+	return resp.Status, nil
 }
 
 type route struct {
